@@ -1312,9 +1312,11 @@ inductive Rtok where
 def applyFailed (s : MState) (failedNow : Nat) : MState :=
   if failedNow > s.failed then { dropCands s with failed := failedNow } else s
 
-/-- the instant up to which Close waits for the goroutines of cycle `cur` (0 = it does not wait) -/
-def closeDeadline (s : MState) (noWait : Bool) (cur : Nat) : Nat :=
-  if noWait then 0 else ((s.jobs.filter (fun j => j.cyc == cur)).map (·.deadline)).foldl max 0
+/-- the instant up to which Close waits for the gather goroutines (0 = it does not wait): those of EVERY cycle —
+the done channel of a cycle is closed after that of the cycle it superseded —, or, for the code with finding
+C09-G12 (`lastOnly`), those of the last cycle `cur` only -/
+def closeDeadline (s : MState) (noWait : Bool) (cur : Nat) (lastOnly : Bool := false) : Nat :=
+  if noWait then 0 else ((s.jobs.filter (fun j => !lastOnly || j.cyc == cur)).map (·.deadline)).foldl max 0
 
 /-- Close waits (the harness moves the virtual clock in steps of 500 ms) until `dl` has passed -/
 def closeWait (s : MState) (dl : Nat) : MState :=
@@ -1329,10 +1331,12 @@ def closeAgent (s : MState) : MState :=
   -- C09-G11: `gatherCandidateDone` is closed when the FIRST pass is over; the code with the finding does not wait
   -- for a re-gather pass of the monitor
   let noWait := s.cfg.has 11 && s.mon.isSome
+  let lastOnly := s.cfg.has 12
   let s := { s with cyc := (Cycle.step false s.cyc .close).1, mon := none }
   let s := resume s (fun j => if isStunJob j && live j then some (.fail, 0) else none)
-  -- Close waits for the goroutines of the last cycle: they run into their timeouts
-  let s := closeWait s (closeDeadline s noWait cur)
+  -- Close waits for the gather goroutines of every cycle, also of one an earlier Restart superseded (C09-G12:
+  -- the code with the finding waits for the last cycle only): they run into their timeouts
+  let s := closeWait s (closeDeadline s noWait cur lastOnly)
   let s := resume s (fun j => if j.deadline ≤ s.now then some (.fail, 0) else none)
   dropCands s
 
